@@ -50,6 +50,14 @@ type mut struct {
 	nfresh int
 }
 
+// seq: a per-operator counter shared by all mutants of one run, so that sub-variants rotate
+var seqCounters = map[string]int{}
+
+func (m *mut) seq(name string) int {
+	seqCounters[name]++
+	return seqCounters[name] - 1
+}
+
 func (m *mut) fresh(p string) string {
 	m.nfresh++
 	return fmt.Sprintf("%s%d", p, m.nfresh)
@@ -466,6 +474,126 @@ func mutOps() []mutOp {
 			m.addVar(name, t, def)
 			s.set(VVar(name))
 			return variant + "/" + s.where
+		}},
+		{"var-list-item-nullability", "", func(m *mut) string {
+			// a list-typed variable used DIRECTLY as an argument value whose ITEM nullability is weaker
+			// than the location's; a default on the variable or on the argument never repairs that
+			variant := []string{"no-default", "variable-default", "argument-default", "nested-list"}[m.seq("vlin")%4]
+			want := func(a IV) bool {
+				nt := a.T.Nullable()
+				if nt.Kind != 1 || nt.Of.Kind != 2 {
+					return false
+				}
+				switch variant {
+				case "argument-default":
+					return a.Def != nil && nt.Of.Of.Kind == 0
+				case "nested-list":
+					return false
+				default:
+					return a.Def == nil && nt.Of.Of.Kind == 0
+				}
+			}
+			if variant == "nested-list" {
+				want = func(a IV) bool { return a.T.String() == "[[Int!]]" }
+			}
+			sel, fd := m.addField(func(f *FD) bool { return argOfType(f, want) != nil })
+			if sel == nil {
+				return ""
+			}
+			a := argOfType(fd, want)
+			// the variable's type: the location's type with the item's non-null removed
+			var weaken func(t *Ty) *Ty
+			weaken = func(t *Ty) *Ty {
+				switch t.Kind {
+				case 2:
+					if t.Of.Kind == 0 {
+						return t.Of
+					}
+					return NN(weaken(t.Of))
+				case 1:
+					return LT(weaken(t.Of))
+				}
+				return t
+			}
+			vt := weaken(a.T)
+			var def *Val
+			if variant == "variable-default" {
+				def = VList(VInt("1"), VInt("2"))
+			}
+			name := m.fresh("lv")
+			m.addVar(name, vt, def)
+			m.setArg(sel, a.Name, VVar(name))
+			return variant + "/" + a.T.String()
+		}},
+		{"conflict-object-interface-scopes", "", func(m *mut) string {
+			// same response key, different scalar fields of one type, one under an object-typed fragment
+			// and one under a fragment on an interface that object implements, beneath another abstract type
+			k := m.seq("cois")
+			objFirst := k%2 == 0
+			named := (k/2)%2 == 1
+			noReq := func(f *FD) bool {
+				return argOfType(f, func(a IV) bool { return a.T.Kind == 2 && a.Def == nil }) == nil
+			}
+			scalar := func(t *Ty) bool {
+				b := t.Base()
+				return builtinScalars[b] || m.s.Kind(b) == "scalar"
+			}
+			for _, sc := range m.compositeScopes() {
+				td := m.s.Type(sc.parent)
+				if td == nil {
+					continue
+				}
+				for _, pf := range td.Fields {
+					P := pf.T.Base()
+					if k := m.s.Kind(P); (k != "interface" && k != "union") || !noReq(pf) {
+						continue
+					}
+					for _, on := range m.s.Possible(P) {
+						ot := m.s.Type(on)
+						for _, in := range ot.Impl {
+							it := m.s.Type(in)
+							if in == P || it == nil {
+								continue
+							}
+							for _, f2 := range it.Fields {
+								if !scalar(f2.T) || !noReq(f2) {
+									continue
+								}
+								for _, f1 := range ot.Fields {
+									if f1.Name == f2.Name || f1.T.String() != f2.T.String() || !noReq(f1) {
+										continue
+									}
+									key := m.fresh("oi")
+									so := &Sel{Kind: 0, Alias: key, Name: f1.Name}
+									si := &Sel{Kind: 0, Alias: key, Name: f2.Name}
+									var a, b *Sel
+									if named {
+										fo, fi := m.fresh("OiO"), m.fresh("OiI")
+										m.doc.Defs = append(m.doc.Defs, Def{Frag: &Frag{Name: fo, On: on, Sels: []*Sel{so}}}, Def{Frag: &Frag{Name: fi, On: in, Sels: []*Sel{si}}})
+										a, b = &Sel{Kind: 2, Name: fo}, &Sel{Kind: 2, Name: fi}
+									} else {
+										a, b = &Sel{Kind: 1, Cond: on, Sels: []*Sel{so}}, &Sel{Kind: 1, Cond: in, Sels: []*Sel{si}}
+									}
+									if !objFirst {
+										a, b = b, a
+									}
+									g := &gen{r: m.r, s: m.s, keys: map[string]*keyInfo{}, feats: map[string]bool{}, noVars: true}
+									*sc.list = append(*sc.list, &Sel{Kind: 0, Alias: m.fresh("mx"), Name: pf.Name, Args: g.argsFor(pf.Args), Sels: []*Sel{a, b}})
+									v := "interface-then-object"
+									if objFirst {
+										v = "object-then-interface"
+									}
+									if named {
+										return v + "/named"
+									}
+									return v + "/inline"
+								}
+							}
+						}
+					}
+				}
+			}
+			return ""
 		}},
 		{"undefined-variable", "", func(m *mut) string {
 			s, ok := pick(m.r, m.values)
